@@ -468,7 +468,14 @@ def list_part_names(chk, F):
     and an SI prefix is glued onto that name.  For a name that is not a base unit the glued name need not exist (`kilokm`,
     `kilohectoare`) or can be the name of another unit (`500 km -> hm;m` prints `5 kiloohm`: kilo + hm = kilohm, an alias
     of kiloohm), so numeral x printed unit is not the part."""
+    # the part is rendered in a closure of to_list, or in a private function that belongs to it (`fn list_part(ctx, name, value)`,
+    # reached only from to_list), with that function's own helpers put back in place
+    import cg
+    G = cg.get(F)
     cl = [f for f in F.by_crate[CORE] if f.path.startswith("runtime::eval::to_list::{closure")]
+    for f in F.by_crate[CORE]:
+        if "{closure" not in f.path and not f.raw.get("public") and "runtime::eval::to_list" in G.owner_chain(f) and f.path != "runtime::eval::to_list":
+            cl.append(F.inlined(f, keep=("Option::<T>", "Result::<T, E>", "Iterator", "bool>::then")))
     site = None
     for fn in cl:
         aggs = [(i, j) for i, j, st in fn.stmts() if st.get("rv", {}).get("k") == "agg" and str(st["rv"].get("adt", "")).endswith("number_parts::NumberParts")]
@@ -497,10 +504,11 @@ def list_part_names(chk, F):
     lookups = sum(1 for n in names if n.endswith("Context::lookup"))
     has_fallback = any(n.endswith("Number::to_parts_simple") for n in names)
     has_cmp = any(n.endswith(("PartialEq>::ne", "PartialEq>::eq", "PartialEq::ne", "PartialEq::eq")) for n in names)
-    chk.decide(gated or (lookups >= 2 and has_fallback and has_cmp), "list-part-names", "rink_core::" + k1norm(fn.path), "glued-name-that-reads-denotes-the-part", fn.where(bb),
+    KEY = "rink_core::runtime::eval::to_list"      # the site is to_list's code wherever it is written
+    chk.decide(gated or (lookups >= 2 and has_fallback and has_cmp), "list-part-names", KEY, "glued-name-that-reads-denotes-the-part", fn.where(bb),
                "a prefixed part name that reads as a unit is compared with prefix x list unit and dropped for the plain rendering when it differs",
                "a prefixed part name is printed without asking what it reads as: `2 hours -> ms;us` prints `7.2 megameter`, `500 km -> hm;m` prints `5 kiloohm`")
-    chk.decide(gated, "list-part-names", "rink_core::" + k1norm(fn.path), "prefix-only-on-base-units", fn.where(bb),
+    chk.decide(gated, "list-part-names", KEY, "prefix-only-on-base-units", fn.where(bb),
                "list parts are prettified (SI prefix glued onto the list unit's name) only when that name is a base unit",
                "every list part is prettified as if the list unit's name were a base unit: an SI prefix is glued onto arbitrary names "
                "(`12345 km -> km;m` prints `12.345 kilokm`, `3 km -> mm;um` prints `3 megamm`: names that do not read back)")
